@@ -1,2 +1,138 @@
-(* Props/C02.v — under construction *)
-From SV Require Import Base.Prelude.
+(* Props/C02.v — property C02: abelian (block-sparse) contraction equals dense
+   contraction.  Blockwise strategy.  Statements only; proofs live in
+   Proofs/Tdot.v and Proofs/TdotInst.v. *)
+From SV Require Import Base.Prelude Base.Sym Base.Tensor Model.Sectors Model.Array Model.Wf
+  Model.SymInst Proofs.Tdot Proofs.TdotInst.
+Local Open Scope nat_scope.
+
+(* Element for element, in (charge, offset) coordinates, the result of
+   `_tensordot_blockwise` is the dense contraction of the operands: for every
+   symmetry whose `ceqb` decides equality, every coefficient ring that is a
+   commutative additive monoid with annihilating zero (SumLaws), all ranks, all
+   tables, all axes.  `merge n axes free con` puts the coordinates `con` at the
+   positions `axes` and `free` at the remaining positions.  A sector absent from
+   the result reads 0 on the left, and the sum on the right is then 0 too. *)
+Theorem C02_blockwise_sem :
+  forall (G : Symmetry) (R : Ring), SumLaws R ->
+  (forall x y : C G, ceqb G x y = true <-> x = y) ->
+  forall (a b : aarray G R) (la aa ab rb : list nat) (cl cr : list (coord G)),
+  wf_array G R a = true -> wf_array G R b = true ->
+  axes_ok (ndim G R a) aa = true -> axes_ok (ndim G R b) ab = true -> length aa = length ab ->
+  la = rest_axes (ndim G R a) aa -> rb = rest_axes (ndim G R b) ab ->
+  charges_nodup G (take_axes (dflt_index G) (indices G R a) aa) = true ->
+  coords_ok G (without_axes (indices G R a) aa) cl = true ->
+  coords_ok G (without_axes (indices G R b) ab) cr = true ->
+  sem G R (tdot_blockwise G R a b la aa ab rb) (cl ++ cr) =
+  rsum R (map (fun kc => rmul R (sem G R a (merge G (ndim G R a) aa cl kc))
+                                (sem G R b (merge G (ndim G R b) ab cr kc)))
+              (all_coords G (take_axes (dflt_index G) (indices G R a) aa))).
+Proof. exact blockwise_sem. Qed.
+
+(* The same with the duplicate-freeness of the contracted tables derived from
+   `wf_array` (tables sorted by `cltb`) when `cltb` is a strict order. *)
+Theorem C02_blockwise_sem_wf :
+  forall (G : Symmetry) (R : Ring), SumLaws R ->
+  (forall x y : C G, ceqb G x y = true <-> x = y) ->
+  forall (a b : aarray G R) (la aa ab rb : list nat) (cl cr : list (coord G)),
+  (forall c : C G, cltb G c c = false) ->
+  (forall x y z : C G, cltb G x y = true -> cltb G y z = true -> cltb G x z = true) ->
+  wf_array G R a = true -> wf_array G R b = true ->
+  axes_ok (ndim G R a) aa = true -> axes_ok (ndim G R b) ab = true -> length aa = length ab ->
+  la = rest_axes (ndim G R a) aa -> rb = rest_axes (ndim G R b) ab ->
+  coords_ok G (without_axes (indices G R a) aa) cl = true ->
+  coords_ok G (without_axes (indices G R b) ab) cr = true ->
+  sem G R (tdot_blockwise G R a b la aa ab rb) (cl ++ cr) =
+  rsum R (map (fun kc => rmul R (sem G R a (merge G (ndim G R a) aa cl kc))
+                                (sem G R b (merge G (ndim G R b) ab cr kc)))
+              (all_coords G (take_axes (dflt_index G) (indices G R a) aa))).
+Proof. exact blockwise_sem_wf. Qed.
+
+(* Instantiated: the five built-in symmetries (generated definitions) and the two
+   exact rings Z and Z[i]; nothing is assumed but `wf_array` of the operands. *)
+Theorem C02_blockwise_sem_builtin :
+  forall (G : Symmetry) (R : Ring) (a b : aarray G R) (la aa ab rb : list nat) (cl cr : list (coord G)),
+  builtin_sym G -> exact_ring R ->
+  wf_array G R a = true -> wf_array G R b = true ->
+  axes_ok (ndim G R a) aa = true -> axes_ok (ndim G R b) ab = true -> length aa = length ab ->
+  la = rest_axes (ndim G R a) aa -> rb = rest_axes (ndim G R b) ab ->
+  coords_ok G (without_axes (indices G R a) aa) cl = true ->
+  coords_ok G (without_axes (indices G R b) ab) cr = true ->
+  sem G R (tdot_blockwise G R a b la aa ab rb) (cl ++ cr) =
+  rsum R (map (fun kc => rmul R (sem G R a (merge G (ndim G R a) aa cl kc))
+                                (sem G R b (merge G (ndim G R b) ab cr kc)))
+              (all_coords G (take_axes (dflt_index G) (indices G R a) aa))).
+Proof. exact blockwise_sem_builtin. Qed.
+
+Theorem C02_ZRing_laws : SumLaws ZRing.
+Proof. exact ZRing_sum_laws. Qed.
+
+Theorem C02_GRing_laws : SumLaws GRing.
+Proof. exact GRing_sum_laws. Qed.
+
+(* The result's total charge. *)
+Theorem C02_blockwise_charge :
+  forall (G : Symmetry) (R : Ring) (a b : aarray G R) (la aa ab rb : list nat),
+  charge G R (tdot_blockwise G R a b la aa ab rb) = combine G [charge G R a; charge G R b].
+Proof. exact blockwise_charge. Qed.
+
+(* The result's index tables: the operands' free tables, each restricted to the
+   charges that occur at that position in some result sector; directions unchanged. *)
+Theorem C02_blockwise_indices :
+  forall (G : Symmetry) (R : Ring),
+  (forall x y : C G, ceqb G x y = true <-> x = y) ->
+  forall (a b : aarray G R) (la aa ab rb : list nat),
+  let res := tdot_blockwise G R a b la aa ab rb in
+  let ixs := without_axes (indices G R a) aa ++ without_axes (indices G R b) ab in
+  indices G R res = prune_indices G ixs (sectors G R res) /\
+  length (indices G R res) = length ixs /\
+  forall i, i < length ixs ->
+    idual G (nth i (indices G R res) (dflt_index G)) = idual G (nth i ixs (dflt_index G)) /\
+    chargemap G (nth i (indices G R res) (dflt_index G)) =
+      filter (fun p => mem (ceqb G) (fst p) (map (fun s => nth i s (ident G)) (sectors G R res)))
+             (chargemap G (nth i ixs (dflt_index G))).
+Proof. exact blockwise_indices. Qed.
+
+(* The public entry point `tensordot(a, b, axes, mode="blockwise")` (integer or
+   explicit, possibly negative, axes as parsed by `parse_axes`). *)
+Theorem C02_tensordot_blockwise_sem :
+  forall (G : Symmetry) (R : Ring), SumLaws R ->
+  (forall x y : C G, ceqb G x y = true <-> x = y) ->
+  forall (a b : aarray G R) (axes : nat + (list Z * list Z)) (aa ab : list nat) (cl cr : list (coord G)),
+  parse_axes (ndim G R a) (ndim G R b) axes = Some (aa, ab) ->
+  wf_array G R a = true -> wf_array G R b = true ->
+  axes_ok (ndim G R a) aa = true -> axes_ok (ndim G R b) ab = true -> length aa = length ab ->
+  charges_nodup G (take_axes (dflt_index G) (indices G R a) aa) = true ->
+  coords_ok G (without_axes (indices G R a) aa) cl = true ->
+  coords_ok G (without_axes (indices G R b) ab) cr = true ->
+  exists res, a_tensordot G R a b axes MBlockwise = Some res /\
+    sem G R res (cl ++ cr) =
+    rsum R (map (fun kc => rmul R (sem G R a (merge G (ndim G R a) aa cl kc))
+                                  (sem G R b (merge G (ndim G R b) ab cr kc)))
+                (all_coords G (take_axes (dflt_index G) (indices G R a) aa))).
+Proof. exact tensordot_blockwise_sem. Qed.
+
+(* `a @ b` for two matrices is the matrix product in (charge, offset) coordinates. *)
+Theorem C02_matmul_sem :
+  forall (G : Symmetry) (R : Ring), SumLaws R ->
+  (forall x y : C G, ceqb G x y = true <-> x = y) ->
+  forall (a b : aarray G R) (l r : coord G),
+  ndim G R a = 2 -> ndim G R b = 2 ->
+  wf_array G R a = true -> wf_array G R b = true ->
+  charges_nodup G [nth 1 (indices G R a) (dflt_index G)] = true ->
+  coords_ok G [nth 0 (indices G R a) (dflt_index G)] [l] = true ->
+  coords_ok G [nth 1 (indices G R b) (dflt_index G)] [r] = true ->
+  exists res, a_matmul G R a b = Some res /\
+    sem G R res [l; r] =
+    rsum R (map (fun k => rmul R (sem G R a [l; k]) (sem G R b [k; r]))
+                (index_coords G (nth 1 (indices G R a) (dflt_index G)))).
+Proof. exact matmul_sem. Qed.
+
+Print Assumptions C02_blockwise_sem.
+Print Assumptions C02_blockwise_sem_wf.
+Print Assumptions C02_blockwise_sem_builtin.
+Print Assumptions C02_ZRing_laws.
+Print Assumptions C02_GRing_laws.
+Print Assumptions C02_blockwise_charge.
+Print Assumptions C02_blockwise_indices.
+Print Assumptions C02_tensordot_blockwise_sem.
+Print Assumptions C02_matmul_sem.
